@@ -980,8 +980,8 @@ Proof.
   rewrite !vals_of_optkv, vals_of_const by assumption. cbn [app].
   assert (Hnil : vals_of [] c = []) by reflexivity.
   destruct (htrailer (rh r)) as [|t0 tr]; destruct (hclose (rh r));
-    rewrite ?(vals_of_single _ _ _ E6), ?(vals_of_single _ _ _ E2), ?Hnil, ?app_nil_r; cbn [app];
-    unfold vals_of; rewrite <- peekAll_vals.
+    rewrite ?(vals_of_single _ _ _ E6), ?(vals_of_single _ _ _ E2); unfold vals_of; cbn [filter map app];
+    rewrite ?app_nil_r; rewrite <- peekAll_vals.
   all: unfold rvals; now rewrite E, E1, E3, E2, E0, E4, E6.
 Qed.
 
@@ -999,7 +999,7 @@ Proof.
   rewrite !vals_of_optkv by assumption. cbn [app].
   assert (Hnil : vals_of [] c = []) by reflexivity.
   destruct (htrailer (qh q)) as [|t0 tr]; destruct (hcookies (qh q)) as [|ck cs]; destruct (hclose (qh q));
-    rewrite ?(vals_of_single _ _ _ E4), ?(vals_of_single _ _ _ E2), ?(vals_of_single _ _ _ E1), ?Hnil, ?app_nil_r; cbn [app];
-    unfold vals_of; rewrite <- peekAll_vals.
+    rewrite ?(vals_of_single _ _ _ E4), ?(vals_of_single _ _ _ E2), ?(vals_of_single _ _ _ E1); unfold vals_of; cbn [filter map app];
+    rewrite ?app_nil_r; rewrite <- peekAll_vals.
   all: unfold qvals; now rewrite E5, E, E6, E1, E0, E2, E4.
 Qed.
